@@ -223,7 +223,7 @@ impl Env {
 		env
 	}
 
-	/// Send a request text on connection `c`.  `Err` = the peer side is closed.
+	/// Send a request text on eager connection `c`.  `Err` = the peer side is closed.
 	pub async fn request(&mut self, c: usize, text: String) -> Result<(), ()> {
 		match &mut self.conns[c] {
 			ConnImpl::Eager(p) => {
@@ -236,42 +236,63 @@ impl Env {
 				}
 				Ok(())
 			}
-			ConnImpl::Manual(mc) => {
-				// what ws.rs's per-message task + middleware/rpc.rs do for a single call
-				let Some(sink) = mc.sink.clone() else { return Err(()) };
-				if sink.is_closed() {
-					return Err(());
+			ConnImpl::Manual(_) => Err(()),
+		}
+	}
+
+	/// manual mode: what middleware/rpc.rs:107-132 and the per-message task of ws.rs:154-185 do for a
+	/// subscribe call.  Returns `ignored` | `blocked` | `refused` | `called`.
+	pub fn manual_subscribe(&mut self, c: usize, meth: usize, rid: u64) -> &'static str {
+		let ConnImpl::Manual(mc) = &mut self.conns[c] else { return "bad" };
+		let Some(sink) = mc.sink.clone() else { return "ignored" };
+		let Some((_, MethodCallback::Subscription(cb))) = self.methods.method_with_name(SUB_NAMES[meth]) else { return "bad" };
+		let cb = cb.clone();
+		let id = Id::Number(rid);
+		match mc.bounded.acquire() {
+			None => {
+				if sink.capacity() == 0 {
+					return "blocked";
 				}
-				let methods = self.methods.clone();
-				let bounded = mc.bounded.clone();
-				let ids = SharedIds(self.ids.clone());
-				let conn_id = ConnectionId(mc.conn_id);
+				let rp = jsonrpsee_server::MethodResponse::error(id, jsonrpsee_types::error::reject_too_many_subscriptions(mc.bounded.max()));
 				tokio::spawn(async move {
-					let req: jsonrpsee_types::Request = serde_json::from_str(&text).expect("harness request");
-					let id = req.id.clone().into_owned();
-					let params = Params::new(req.params.as_ref().map(|p| p.get())).into_owned();
-					let rp = match methods.method_with_name(&req.method) {
-						Some((_, MethodCallback::Subscription(cb))) => {
-							if let Some(p) = bounded.acquire() {
-								let st = SubscriptionState { conn_id, id_provider: &ids, subscription_permit: p };
-								(cb)(id.clone(), params, sink.clone(), st, Default::default()).await
-							} else {
-								jsonrpsee_server::MethodResponse::error(
-									id,
-									jsonrpsee_types::error::reject_too_many_subscriptions(bounded.max()),
-								)
-							}
-						}
-						Some((_, MethodCallback::Unsubscription(cb))) => (cb)(id, params, conn_id, usize::MAX, Default::default()),
-						_ => panic!("harness only calls subscription methods"),
-					};
 					if rp.is_method_call() {
 						let _ = sink.send(rp.into_json()).await;
 					}
 				});
-				Ok(())
+				"refused"
+			}
+			Some(p) => {
+				let ids = SharedIds(self.ids.clone());
+				let conn_id = ConnectionId(mc.conn_id);
+				tokio::spawn(async move {
+					let st = SubscriptionState { conn_id, id_provider: &ids, subscription_permit: p };
+					let rp = (cb)(id, Params::new(None), sink.clone(), st, Default::default()).await;
+					if rp.is_method_call() {
+						let _ = sink.send(rp.into_json()).await;
+					}
+				});
+				"called"
 			}
 		}
+	}
+
+	/// manual mode: unsubscribe call (middleware/rpc.rs:134-146 + per-message task); `Ok(answer)`
+	pub fn manual_unsubscribe(&mut self, c: usize, meth: usize, rid: u64, x: u64) -> Result<Option<bool>, &'static str> {
+		let ConnImpl::Manual(mc) = &mut self.conns[c] else { return Err("bad") };
+		let Some(sink) = mc.sink.clone() else { return Err("ignored") };
+		if sink.capacity() == 0 {
+			return Err("blocked");
+		}
+		let Some((_, MethodCallback::Unsubscription(cb))) = self.methods.method_with_name(UNSUB_NAMES[meth]) else { return Err("bad") };
+		let params = format!("[{x}]");
+		let rp = (cb)(Id::Number(rid), Params::new(Some(&params)), ConnectionId(mc.conn_id), usize::MAX, Default::default());
+		let ans = canon_frame(rp.as_json().get()).strip_prefix(&format!("bool:{rid}:")).map(|b| b == "1");
+		tokio::spawn(async move {
+			if rp.is_method_call() {
+				let _ = sink.send(rp.into_json()).await;
+			}
+		});
+		Ok(ans)
 	}
 
 	/// frames that reached the peer of `c` since the last call (eager) — in order
@@ -432,5 +453,977 @@ pub fn data_msg(p: u64) -> SubscriptionMessage {
 	SubscriptionMessage::from(serde_json::value::to_raw_value(&p).unwrap())
 }
 
-#[allow(dead_code)]
-fn _unused(_: Id<'static>) {}
+
+// ---------------------------------------------------------------------------------------------
+// case runner: executes `ss …` op lines against the real code, keeps the harness's own
+// bookkeeping (`Book`, independent of the Lean model) and evaluates the C06 / C04 oracles.
+// ---------------------------------------------------------------------------------------------
+
+/// payloads >= CLOSE_BASE are only used by closing notifications (`ret k notif:<p>`)
+pub const CLOSE_BASE: u64 = 1000;
+
+#[derive(Clone, Copy, PartialEq, Eq, Debug)]
+pub enum BPhase {
+	Pending,
+	Accepted,
+	Rejected,
+	Dropped,
+	AcceptFailed,
+}
+
+/// the harness's own record of one subscription (from the script and the observed results)
+#[derive(Clone, Debug)]
+pub struct BSub {
+	pub conn: usize,
+	pub meth: usize,
+	pub sid: u64,
+	pub rid: u64,
+	pub phase: BPhase,
+	pub clones: u32,
+	pub unsub: bool,
+	/// a clone that was not the last live handle was dropped while the subscription was registered
+	pub nonlast_drop: bool,
+	pub returned: Option<Ret>,
+	/// payloads of sends that returned Ok, in order
+	pub sent_ok: Vec<u64>,
+	/// observed on the peer, in order
+	pub data_seen: Vec<u64>,
+	pub close_seen: u32,
+	pub resp_seen: bool,
+	/// a send/is_closed told the script the subscription is closed
+	pub closed_reported: bool,
+}
+
+#[derive(Clone, Debug, Default)]
+pub struct Book {
+	pub subs: Vec<BSub>,
+	pub peer_closed: Vec<bool>,
+	pub stopped: bool,
+	pub cap: u32,
+}
+
+impl Book {
+	pub fn holding(&self, c: usize) -> u32 {
+		self.subs.iter().filter(|s| s.conn == c && (s.phase == BPhase::Pending || s.clones > 0)).count() as u32
+	}
+	pub fn by_sid(&self, sid: u64) -> Option<usize> {
+		self.subs.iter().position(|s| s.sid == sid)
+	}
+}
+
+pub struct CaseRun {
+	pub env: Env,
+	pub subs: Vec<SubCtl>,
+	pub book: Book,
+	pub eager: bool,
+	pub nconns: usize,
+	pub check_c06: bool,
+	pub check_c04: bool,
+	/// every frame seen per connection (canonical tokens), for the C04 oracle
+	pub streams: Vec<Vec<String>>,
+}
+
+pub struct LineResult {
+	pub out: String,
+	pub oracle: Result<(), String>,
+	pub nontrivial: bool,
+	pub kind: String,
+}
+
+pub fn parse_header(line: &str) -> Option<(bool, u32, u32, usize)> {
+	let w: Vec<&str> = line.split_whitespace().collect();
+	if w.len() != 7 || w[0] != "case" || w[2] != "subs" {
+		return None;
+	}
+	let eager = match w[3] {
+		"mode=eager" => true,
+		"mode=manual" => false,
+		_ => return None,
+	};
+	let cap = w[4].strip_prefix("cap=")?.parse().ok()?;
+	let qcap = w[5].strip_prefix("qcap=")?.parse().ok()?;
+	let conns = w[6].strip_prefix("conns=")?.parse().ok()?;
+	Some((eager, cap, qcap, conns))
+}
+
+pub fn parse_ret(w: &str) -> Option<Ret> {
+	if w == "none" {
+		Some(Ret::None)
+	} else if let Some(p) = w.strip_prefix("notif:") {
+		p.parse().ok().map(Ret::Notif)
+	} else if let Some(e) = w.strip_prefix("err:") {
+		e.parse().ok().map(Ret::Err)
+	} else {
+		None
+	}
+}
+
+fn oracle_merge(acc: &mut Result<(), String>, r: Result<(), String>) {
+	if let Err(e) = r {
+		match acc {
+			Ok(()) => *acc = Err(e),
+			// a genuine failure outranks a known-finding attribution
+			Err(prev) if prev.starts_with("KF ") && !e.starts_with("KF ") => *acc = Err(e),
+			_ => {}
+		}
+	}
+}
+
+impl CaseRun {
+	pub async fn new(header: &str, check_c06: bool, check_c04: bool) -> Option<CaseRun> {
+		let (eager, cap, qcap, nconns) = parse_header(header)?;
+		let env = Env::new(eager, nconns, cap, qcap).await;
+		let book = Book { subs: vec![], peer_closed: vec![false; nconns], stopped: false, cap };
+		Some(CaseRun { env, subs: vec![], book, eager, nconns, check_c06, check_c04, streams: vec![vec![]; nconns] })
+	}
+
+	fn conn_serving(&self, c: usize) -> bool {
+		!self.book.peer_closed[c] && !self.env.closed(c)
+	}
+
+	/// expected "active" per the statement of C06, from the script alone
+	fn expect_active(&self, k: usize) -> bool {
+		let s = &self.book.subs[k];
+		s.phase == BPhase::Accepted && !s.unsub && s.clones > 0 && self.conn_serving(s.conn)
+	}
+
+	/// deviation of a closed/active observation from the statement.  (Finding F-13 — dropping a
+	/// non-last clone of the sink removed the subscription — was fixed in /repo by 2bde692; the
+	/// history is named in the message so that a regression is recognisable.)
+	fn deviation(&self, k: usize, what: String) -> Result<(), String> {
+		let s = &self.book.subs[k];
+		if s.nonlast_drop && s.phase == BPhase::Accepted && !s.unsub && s.clones > 0 {
+			Err(format!("{what} (sub {} on conn {}: a clone of the sink was dropped earlier while {} handle(s) remain — regression of fix 2bde692 / finding F-13?)", s.sid, s.conn, s.clones))
+		} else {
+			Err(what)
+		}
+	}
+
+	fn collect_handovers(&mut self) -> Vec<usize> {
+		let hs: Vec<Handover> = self.env.shared.handovers.lock().unwrap().drain(..).collect();
+		let mut new = vec![];
+		for h in hs {
+			new.push(self.subs.len());
+			self.subs.push(SubCtl::from_handover(h));
+		}
+		new
+	}
+
+	/// frames that arrived since the last line + the C04 stream oracle on them
+	fn frames_part(&mut self, extra: Option<(usize, String)>, orc: &mut Result<(), String>) -> (String, Vec<Vec<String>>) {
+		let mut parts = vec![];
+		let mut all = vec![];
+		for c in 0..self.nconns {
+			let fs: Vec<String> = self.env.take_frames(c).iter().map(|f| canon_frame(f)).collect();
+			// manual mode: the frame the harness's writer step took (shown as `w:<frame>` by both sides)
+			let stepped: Vec<String> = extra.iter().filter(|(ec, _)| *ec == c).map(|(_, f)| f.clone()).collect();
+			for f in fs.iter().chain(stepped.iter()) {
+				let r = self.observe_frame(c, f);
+				if self.check_c04 {
+					oracle_merge(orc, r);
+				}
+				self.streams[c].push(f.clone());
+			}
+			parts.push(format!("c{c}={}", if fs.is_empty() { "-".to_string() } else { fs.join(",") }));
+			all.push(fs);
+		}
+		let bits: String = (0..self.nconns).map(|c| if self.env.closed(c) { '0' } else { '1' }).collect();
+		(format!("{};open={bits}", parts.join(";")), all)
+	}
+
+	/// C04 clauses 1-4 and 6 on one delivered frame (the frame streams are per connection, in order)
+	fn observe_frame(&mut self, c: usize, f: &str) -> Result<(), String> {
+		let w: Vec<&str> = f.split(':').collect();
+		match w[0] {
+			"resp" => {
+				let sid: u64 = w[2].parse().map_err(|_| format!("bad frame {f}"))?;
+				let rid: u64 = w[1].parse().map_err(|_| format!("bad frame {f}"))?;
+				let Some(k) = self.book.by_sid(sid) else { return Err(format!("accept response for unknown subscription: {f}")) };
+				let s = &mut self.book.subs[k];
+				if s.conn != c || s.rid != rid {
+					return Err(format!("accept response {f} on conn {c} does not belong to call {} on conn {}", s.rid, s.conn));
+				}
+				if s.resp_seen {
+					return Err(format!("second accept response {f}"));
+				}
+				s.resp_seen = true;
+				Ok(())
+			}
+			"ntf" | "nerr" => {
+				let sid: u64 = w[2].parse().map_err(|_| format!("bad frame {f}"))?;
+				let p: u64 = w[3].parse().map_err(|_| format!("bad frame {f}"))?;
+				let Some(k) = self.book.by_sid(sid) else { return Err(format!("notification for unknown subscription id: {f}")) };
+				let s = &mut self.book.subs[k];
+				// 1. own id / method / connection
+				if s.conn != c {
+					return Err(format!("notification {f} delivered on conn {c}, subscription lives on conn {}", s.conn));
+				}
+				if w[1] != NOTIF_NAMES[s.meth] {
+					return Err(format!("notification {f} carries method {}, subscription's is {}", w[1], NOTIF_NAMES[s.meth]));
+				}
+				// 4. never accepted => nothing
+				if s.phase != BPhase::Accepted {
+					return Err(format!("notification {f} for a subscription that was never accepted ({:?})", s.phase));
+				}
+				// 2. after the accepting response
+				if !s.resp_seen {
+					return Err(format!("notification {f} delivered before the response accepting the subscription"));
+				}
+				let is_close = w[0] == "nerr" || p >= CLOSE_BASE;
+				if is_close {
+					// 6. at most one closing notification, and it is the handler's return value
+					s.close_seen += 1;
+					if s.close_seen > 1 {
+						return Err(format!("second closing notification {f}"));
+					}
+					let ok = match (&s.returned, w[0]) {
+						(Some(Ret::Notif(q)), "ntf") => *q == p,
+						(Some(Ret::Err(q)), "nerr") => *q == p,
+						_ => false,
+					};
+					if !ok {
+						return Err(format!("closing notification {f} is not what the handler returned ({:?})", s.returned));
+					}
+				} else {
+					// 3. FIFO: the delivered data payloads are a prefix of the successful sends, in order
+					let i = s.data_seen.len();
+					if s.sent_ok.get(i) != Some(&p) {
+						return Err(format!(
+							"data notification {f} out of order / not produced: delivered so far {:?}, successful sends {:?}",
+							s.data_seen, s.sent_ok
+						));
+					}
+					s.data_seen.push(p);
+				}
+				Ok(())
+			}
+			"err" | "bool" => Ok(()),
+			_ => Err(format!("unrecognised frame on conn {c}: {f}")),
+		}
+	}
+
+	/// `PendingSubscriptionSink::accept` on scripted subscription `k`
+	async fn op_accept(&mut self, k: usize, orc: &mut Result<(), String>, settle: bool) -> String {
+		if k >= self.subs.len() || self.subs[k].pending.is_none() {
+			"bad".into()
+		} else {
+			let c = self.subs[k].conn;
+			let serving_before = self.conn_serving(c);
+			let blocked = !self.eager && !self.env.closed(c) && self.subs[k].pending.as_ref().unwrap().capacity() == 0;
+			if blocked {
+				"blocked".into()
+			} else {
+				let p = self.subs[k].pending.take().unwrap();
+				match tokio::time::timeout(Duration::from_millis(1), p.accept()).await {
+					Ok(Ok(sink)) => {
+						self.subs[k].sinks.push(sink);
+						self.book.subs[k].phase = BPhase::Accepted;
+						self.book.subs[k].clones = 1;
+						if !serving_before {
+							oracle_merge(orc, Err(format!("accept succeeded on closed connection {c}")));
+						}
+						if settle {
+							barrier().await;
+						}
+						"ok".into()
+					}
+					Ok(Err(_)) => {
+						self.book.subs[k].phase = BPhase::AcceptFailed;
+						if serving_before {
+							oracle_merge(orc, Err(format!("accept failed although connection {c} is open")));
+						}
+						if settle {
+							barrier().await;
+						}
+						"err".into()
+					}
+					Err(_) => "parked".into(),
+				}
+			}
+		}
+	}
+
+	/// `SubscriptionSink::send` on the newest live handle of subscription `k`
+	async fn op_send(&mut self, k: usize, p: u64, orc: &mut Result<(), String>, settle: bool) -> String {
+		if k >= self.subs.len() {
+			"bad".into()
+		} else if self.subs[k].sinks.is_empty() {
+			"nosink".into()
+		} else {
+			let expect = self.expect_active(k);
+			let sink = self.subs[k].sinks.last().unwrap();
+			if !self.eager && !sink.is_closed() && sink.capacity() == 0 {
+				"blocked".into()
+			} else {
+				let r = tokio::time::timeout(Duration::from_millis(1), sink.send(data_msg(p))).await;
+				if settle {
+						barrier().await;
+					}
+				match r {
+					Ok(Ok(())) => {
+						self.book.subs[k].sent_ok.push(p);
+						if !expect {
+							// C04.5: a send started after the subscription was closed must fail
+							oracle_merge(orc, Err(format!("send on sub {} succeeded although the subscription is closed (unsubscribed / connection ended / stopped)", self.book.subs[k].sid)));
+						}
+						"ok".into()
+					}
+					Ok(Err(_)) => {
+						self.book.subs[k].closed_reported = true;
+						if expect {
+							let d = self.deviation(k, format!("send on sub {} failed although it is active (accepted, not unsubscribed, connection open, sink held)", self.book.subs[k].sid));
+							oracle_merge(orc, d);
+						}
+						"err".into()
+					}
+					Err(_) => "parked".into(),
+				}
+			}
+		}
+	}
+
+	/// Execute one `ss …` line.
+	pub async fn exec(&mut self, line: &str) -> LineResult {
+		let w: Vec<&str> = line.split_whitespace().collect();
+		let mut orc: Result<(), String> = Ok(());
+		let mut extra: Option<(usize, String)> = None;
+		let mut unsub_check: Option<(u64, usize, Option<usize>, bool, Option<bool>)> = None;
+		let num = |i: usize| -> Option<u64> { w.get(i).and_then(|x| x.parse::<u64>().ok()) };
+		let bad = |out: &str| LineResult { out: out.to_string(), oracle: Ok(()), nontrivial: false, kind: "bad-op".into() };
+		if w.len() < 2 || w[0] != "ss" {
+			return bad("bad-op");
+		}
+		let verb = w[1];
+		let out: String = match verb {
+			"sub" => {
+				let (Some(c), Some(m), Some(rid)) = (num(2), num(3), num(4)) else { return bad("bad-op") };
+				let (c, m) = (c as usize, m as usize);
+				if c >= self.nconns || m >= NMETH {
+					"bad".into()
+				} else {
+					let holding = self.book.holding(c);
+					let serving = self.conn_serving(c) && !self.book.stopped;
+					let res: String = if self.eager {
+						match self.env.request(c, sub_request(m, rid)).await {
+							Err(()) => "ignored".into(),
+							Ok(()) => {
+								barrier().await;
+								"?".into()
+							}
+						}
+					} else {
+						let r = self.env.manual_subscribe(c, m, rid);
+						barrier().await;
+						if r == "called" { "?".into() } else { r.into() }
+					};
+					let new = self.collect_handovers();
+					let res = if let Some(&k) = new.first() {
+						let h = &self.subs[k];
+						self.book.subs.push(BSub {
+							conn: h.conn,
+							meth: h.meth,
+							sid: h.sid,
+							rid,
+							phase: BPhase::Pending,
+							clones: 0,
+							unsub: false,
+							nonlast_drop: false,
+							returned: None,
+							sent_ok: vec![],
+							data_seen: vec![],
+							close_seen: 0,
+							resp_seen: false,
+							closed_reported: false,
+						});
+						if h.conn != c || h.meth != m {
+							oracle_merge(&mut orc, Err(format!("handler invoked for conn {} method {}, call was on conn {c} method {m}", h.conn, h.meth)));
+						}
+						format!("pending:{}", h.sid)
+					} else if res == "?" {
+						// decided below from the frames (refused iff the -32006 error came back)
+						"?".into()
+					} else {
+						res
+					};
+					// C06.2: never above the cap, refusal exactly at the cap
+					if self.check_c06 && serving {
+						let verdict = if res.starts_with("pending") {
+							if holding >= self.book.cap {
+								Err(format!("subscribe admitted although {holding} subscriptions (pending or with a live sink) exist on conn {c}, cap {}", self.book.cap))
+							} else {
+								Ok(())
+							}
+						} else if res == "refused" || res == "?" {
+							if holding < self.book.cap {
+								Err(format!("subscribe refused/unanswered although only {holding} subscriptions hold a slot on conn {c}, cap {}", self.book.cap))
+							} else {
+								Ok(())
+							}
+						} else {
+							Ok(())
+						};
+						oracle_merge(&mut orc, verdict);
+					}
+					res
+				}
+			}
+			"accept" => {
+				let Some(k) = num(2) else { return bad("bad-op") };
+				self.op_accept(k as usize, &mut orc, true).await
+			}
+			// accept immediately followed by a send, no yield in between (zero delay placement)
+			"acceptsend" => {
+				let (Some(k), Some(p)) = (num(2), num(3)) else { return bad("bad-op") };
+				let r1 = self.op_accept(k as usize, &mut orc, false).await;
+				let r2 = self.op_send(k as usize, p, &mut orc, false).await;
+				barrier().await;
+				format!("{r1}+{r2}")
+			}
+			// n sends in a row without yielding (payloads p, p+1, …): the queue really fills
+			"burst" => {
+				let (Some(k), Some(p), Some(n)) = (num(2), num(3), num(4)) else { return bad("bad-op") };
+				if n == 0 || n > 16 {
+					return bad("bad-op");
+				}
+				let mut rs = vec![];
+				for i in 0..n {
+					rs.push(self.op_send(k as usize, p + i, &mut orc, false).await);
+				}
+				barrier().await;
+				rs.join(",")
+			}
+			"reject" | "droppending" => {
+				let Some(k) = num(2) else { return bad("bad-op") };
+				let k = k as usize;
+				if k >= self.subs.len() || self.subs[k].pending.is_none() {
+					"bad".into()
+				} else {
+					let c = self.subs[k].conn;
+					let blocked = !self.eager && !self.env.closed(c) && self.subs[k].pending.as_ref().unwrap().capacity() == 0;
+					if blocked {
+						"blocked".into()
+					} else {
+						let p = self.subs[k].pending.take().unwrap();
+						if verb == "reject" {
+							let Some(code) = w.get(3).and_then(|x| x.parse::<i32>().ok()) else { return bad("bad-op") };
+							self.book.subs[k].phase = BPhase::Rejected;
+							if tokio::time::timeout(Duration::from_millis(1), p.reject(reject_error(code))).await.is_err() {
+								"parked".into()
+							} else {
+								barrier().await;
+								"done".into()
+							}
+						} else {
+							self.book.subs[k].phase = BPhase::Dropped;
+							drop(p);
+							barrier().await;
+							"done".into()
+						}
+					}
+				}
+			}
+			"send" => {
+				let (Some(k), Some(p)) = (num(2), num(3)) else { return bad("bad-op") };
+				self.op_send(k as usize, p, &mut orc, true).await
+			}
+			"clone" => {
+				let Some(k) = num(2) else { return bad("bad-op") };
+				let k = k as usize;
+				if k >= self.subs.len() {
+					"bad".into()
+				} else if self.subs[k].sinks.is_empty() {
+					"nosink".into()
+				} else {
+					let s = self.subs[k].sinks.last().unwrap().clone();
+					self.subs[k].sinks.push(s);
+					self.book.subs[k].clones += 1;
+					"ok".into()
+				}
+			}
+			"dropsink" => {
+				let Some(k) = num(2) else { return bad("bad-op") };
+				let k = k as usize;
+				if k >= self.subs.len() {
+					"bad".into()
+				} else if self.subs[k].sinks.is_empty() {
+					"nosink".into()
+				} else {
+					let b = &mut self.book.subs[k];
+					if b.clones > 1 && !b.unsub {
+						b.nonlast_drop = true;
+					}
+					b.clones -= 1;
+					let s = self.subs[k].sinks.pop();
+					drop(s);
+					barrier().await;
+					"ok".into()
+				}
+			}
+			"isclosed" => {
+				let Some(k) = num(2) else { return bad("bad-op") };
+				let k = k as usize;
+				if k >= self.subs.len() {
+					"bad".into()
+				} else if self.subs[k].sinks.is_empty() {
+					"nosink".into()
+				} else {
+					let closed = self.subs[k].sinks.last().unwrap().is_closed();
+					let expect_closed = !self.expect_active(k);
+					if closed != expect_closed {
+						let d = if closed {
+							self.deviation(k, format!("sink of sub {} reports closed although the subscription is active", self.book.subs[k].sid))
+						} else {
+							Err(format!("sink of sub {} reports open although the subscription is closed", self.book.subs[k].sid))
+						};
+						oracle_merge(&mut orc, d);
+					}
+					if closed {
+						self.book.subs[k].closed_reported = true;
+					}
+					format!("closed={}", closed as u8)
+				}
+			}
+			"ret" => {
+				let (Some(k), Some(r)) = (num(2), w.get(3).and_then(|x| parse_ret(x))) else { return bad("bad-op") };
+				let k = k as usize;
+				if k >= self.subs.len() {
+					"bad".into()
+				} else if self.subs[k].handler_gone() || self.subs[k].ret_tx.is_none() {
+					"gone".into()
+				} else {
+					self.book.subs[k].returned = Some(r.clone());
+					let _ = self.subs[k].ret_tx.take().unwrap().send(r);
+					barrier().await;
+					"done".into()
+				}
+			}
+			"unsub" => {
+				let (Some(c), Some(m), Some(x), Some(rid)) = (num(2), num(3), num(4), num(5)) else { return bad("bad-op") };
+				let (c, m) = (c as usize, m as usize);
+				if c >= self.nconns || m >= NMETH {
+					"bad".into()
+				} else {
+					// C06.1: the truth table, from the script alone
+					let target = self.book.subs.iter().position(|s| s.conn == c && s.meth == m && s.sid == x);
+					let expect = target.map(|k| self.expect_active(k)).unwrap_or(false);
+					let mut known: Option<bool> = None;
+					let res: String = if self.eager {
+						match self.env.request(c, unsub_request(m, rid, x)).await {
+							Err(()) => "ignored".into(),
+							Ok(()) => {
+								barrier().await;
+								"?".into()
+							}
+						}
+					} else {
+						let r = self.env.manual_unsubscribe(c, m, rid, x);
+						barrier().await;
+						match r {
+							Ok(a) => {
+								known = a;
+								if a.is_none() {
+									oracle_merge(&mut orc, Err("unsubscribe callback did not produce a boolean response".into()));
+								}
+								"sent".into()
+							}
+							Err(e) => e.into(),
+						}
+					};
+					// the answer: eager = the frame that comes back with this line; manual = the harness plays
+					// the connection task and sees the response object before it is queued
+					unsub_check = Some((rid, c, target, expect, known));
+					res
+				}
+			}
+			"connclose" => {
+				let Some(c) = num(2) else { return bad("bad-op") };
+				let c = c as usize;
+				let graceful = match w.get(3) {
+					Some(&"graceful") => true,
+					Some(&"abrupt") => false,
+					_ => return bad("bad-op"),
+				};
+				if c >= self.nconns {
+					"bad".into()
+				} else {
+					self.env.conn_close(c, graceful).await;
+					self.book.peer_closed[c] = true;
+					barrier().await;
+					"done".into()
+				}
+			}
+			"stop" => {
+				if !self.eager {
+					return bad("bad-op");
+				}
+				self.env.stop();
+				self.book.stopped = true;
+				barrier().await;
+				"done".into()
+			}
+			"wstep" => {
+				let Some(c) = num(2) else { return bad("bad-op") };
+				let c = c as usize;
+				if self.eager || c >= self.nconns {
+					return bad("bad-op");
+				}
+				match self.env.writer_step(c) {
+					Some(f) => {
+						let cf = canon_frame(&f);
+						extra = Some((c, cf.clone()));
+						barrier().await;
+						format!("w:{cf}")
+					}
+					None => "empty".into(),
+				}
+			}
+			_ => return bad("bad-op"),
+		};
+		// late handovers cannot happen (every subscribe is followed by a barrier), but never lose one
+		let late = self.collect_handovers();
+		if !late.is_empty() && verb != "sub" {
+			oracle_merge(&mut orc, Err("handler invoked outside a subscribe call".into()));
+		}
+		let (fpart, frames) = self.frames_part(extra, &mut orc);
+		// resolve `?` results from the frames that came back
+		let mut out = out;
+		if out == "?" {
+			let rid = if verb == "sub" { num(4) } else { num(5) };
+			let c = num(2).unwrap() as usize;
+			let rid = rid.unwrap();
+			if verb == "sub" {
+				out = if frames[c].iter().any(|f| *f == format!("err:{rid}:-32006")) { "refused".into() } else { "ignored".into() };
+				if self.check_c06 && out == "ignored" && self.conn_serving(c) && !self.book.stopped {
+					oracle_merge(&mut orc, Err(format!("subscribe call {rid} on serving conn {c} got neither a handler invocation nor a refusal")));
+				}
+			} else {
+				out = if frames[c].iter().any(|f| f.starts_with(&format!("bool:{rid}:"))) { "sent".into() } else { "ignored".into() };
+			}
+		}
+		// C06.1: the unsubscribe answer against the truth table recomputed from the script
+		if let Some((rid, c, target, expect, known)) = unsub_check {
+			let ans = if self.eager {
+				frames[c].iter().find_map(|f| f.strip_prefix(&format!("bool:{rid}:")).map(|b| b == "1"))
+			} else {
+				known
+			};
+			match ans {
+				None => {
+					if self.eager && self.check_c06 && self.conn_serving(c) && !self.book.stopped {
+						oracle_merge(&mut orc, Err(format!("unsubscribe call {rid} on serving conn {c} was not answered")));
+					}
+				}
+				Some(b) => {
+					if b {
+						if let Some(k) = target {
+							self.book.subs[k].unsub = true;
+						}
+					}
+					if self.check_c06 && b != expect {
+						let what = format!(
+							"unsubscribe(conn {c}, id {}) answered {b}, the script says {expect}",
+							target.map(|k| self.book.subs[k].sid.to_string()).unwrap_or("unknown".into())
+						);
+						let d = match (target, b) {
+							(Some(k), false) => self.deviation(k, what),
+							_ => Err(what),
+						};
+						oracle_merge(&mut orc, d);
+					}
+				}
+			}
+		}
+		let nontrivial = !matches!(out.as_str(), "bad" | "ignored" | "nosink" | "gone" | "empty" | "blocked" | "bad-op");
+		let kind = format!("{verb}.{}", out.split(':').next().unwrap_or(""));
+		LineResult { out: format!("{out};{fpart}"), oracle: orc, nontrivial, kind }
+	}
+}
+
+// ---------------------------------------------------------------------------------------------
+// generators and case drivers shared by the c06 / c04 binaries
+// ---------------------------------------------------------------------------------------------
+use crate::common::{Out, Rng, fxhash};
+
+/// generator weights / which oracle set is evaluated
+pub struct Profile {
+	pub check_c06: bool,
+	pub check_c04: bool,
+	pub w_accept: u64,
+	pub w_send: u64,
+	pub w_ret: u64,
+	pub w_wstep: u64,
+	/// compound steps without a yield in between: accept+send, bursts of sends
+	pub w_burst: u64,
+	/// end every case with the refill-to-cap tail (C06) instead of draining the queues (C04)
+	pub tail: bool,
+}
+
+/// manual mode: step the writer until every queue is empty so that everything enqueued is observed
+pub fn drain_lines(run: &CaseRun) -> Vec<String> {
+	let mut v = vec![];
+	if run.eager {
+		return v;
+	}
+	for c in 0..run.nconns {
+		for _ in 0..run.env.qcap + 2 {
+			v.push(format!("ss wstep {c}"));
+		}
+	}
+	v
+}
+
+pub struct Gen {
+	pub next_rid: u64,
+	pub next_payload: u64,
+	pub next_close: u64,
+}
+
+impl Gen {
+	fn rid(&mut self) -> u64 {
+		self.next_rid += 1;
+		self.next_rid
+	}
+}
+
+/// one state-aware random op line
+pub fn gen_line(rng: &mut Rng, run: &CaseRun, g: &mut Gen, pf: &Profile) -> String {
+	let book = &run.book;
+	let n = run.nconns as u64;
+	let mut opts: Vec<(u64, String)> = vec![];
+	// subscribe
+	for c in 0..run.nconns {
+		let w = if book.peer_closed[c] { 1 } else if book.holding(c) <= book.cap { 6 } else { 2 };
+		opts.push((w, format!("ss sub {c} {} RID", rng.below(NMETH as u64))));
+	}
+	for (k, s) in run.subs.iter().enumerate() {
+		let b = &book.subs[k];
+		if s.pending.is_some() {
+			opts.push((pf.w_accept, format!("ss accept {k}")));
+			opts.push((pf.w_burst, format!("ss acceptsend {k} PAY")));
+			opts.push((2, format!("ss reject {k} {}", *rng.pick(&[-32000i32, -1, 7, -32602]))));
+			opts.push((1, format!("ss droppending {k}")));
+		}
+		if !s.sinks.is_empty() {
+			opts.push((pf.w_send, format!("ss send {k} PAY")));
+			opts.push((pf.w_burst, format!("ss burst {k} PAYN {}", rng.range(2, 6))));
+			opts.push((3, format!("ss clone {k}")));
+			opts.push((4, format!("ss dropsink {k}")));
+			opts.push((3, format!("ss isclosed {k}")));
+		}
+		if b.returned.is_none() {
+			let r = match rng.below(3) {
+				0 => "none".to_string(),
+				1 => "notif:CLOSE".to_string(),
+				_ => "err:CLOSE".to_string(),
+			};
+			opts.push((pf.w_ret, format!("ss ret {k} {r}")));
+		}
+		// unsubscribe: own / other connection / other method
+		let w = if b.phase == BPhase::Accepted && !b.unsub { 4 } else { 1 };
+		opts.push((w, format!("ss unsub {} {} {} RID", b.conn, b.meth, b.sid)));
+		if n > 1 {
+			opts.push((1, format!("ss unsub {} {} {} RID", (b.conn as u64 + 1 + rng.below(n - 1)) % n, b.meth, b.sid)));
+		}
+		opts.push((1, format!("ss unsub {} {} {} RID", b.conn, (b.meth + 1) % NMETH, b.sid)));
+	}
+	// unknown id
+	opts.push((1, format!("ss unsub {} {} {} RID", rng.below(n), rng.below(NMETH as u64), 50 + rng.below(5))));
+	// faults
+	for c in 0..run.nconns {
+		if !book.peer_closed[c] {
+			opts.push((1, format!("ss connclose {c} {}", if rng.chance(1, 2) { "graceful" } else { "abrupt" })));
+		}
+	}
+	if run.eager && !book.stopped && rng.chance(1, 3) {
+		opts.push((1, "ss stop".into()));
+	}
+	// not enabled / nonsense
+	let ns = run.subs.len() as u64 + 1;
+	opts.push((1, format!("ss accept {}", rng.below(ns))));
+	opts.push((1, format!("ss send {} PAY", rng.below(ns))));
+	opts.push((1, format!("ss dropsink {}", rng.below(ns))));
+	if !run.eager {
+		for c in 0..run.nconns {
+			opts.push((pf.w_wstep, format!("ss wstep {c}")));
+		}
+	}
+	let total: u64 = opts.iter().map(|o| o.0).sum();
+	let mut x = rng.below(total);
+	let mut line = opts[0].1.clone();
+	for (w, l) in &opts {
+		if x < *w {
+			line = l.clone();
+			break;
+		}
+		x -= w;
+	}
+	fill(line, g)
+}
+
+pub fn fill(line: String, g: &mut Gen) -> String {
+	let mut line = line;
+	if line.contains("RID") {
+		line = line.replace("RID", &g.rid().to_string());
+	}
+	if line.contains("PAYN") {
+		// a burst: reserve the whole payload range p .. p+n-1
+		let n: u64 = line.split_whitespace().last().and_then(|x| x.parse().ok()).unwrap_or(1);
+		line = line.replace("PAYN", &(g.next_payload + 1).to_string());
+		g.next_payload += n;
+	}
+	if line.contains("PAY") {
+		g.next_payload += 1;
+		line = line.replace("PAY", &g.next_payload.to_string());
+	}
+	if line.contains("CLOSE") {
+		g.next_close += 1;
+		line = line.replace("CLOSE", &(CLOSE_BASE + g.next_close).to_string());
+	}
+	line
+}
+
+/// after the random part: on every connection that still serves, fill up to the cap (all must be
+/// admitted) and ask for one more (must be refused)
+pub fn tail_lines(run: &CaseRun, g: &mut Gen) -> Vec<String> {
+	let mut v = vec![];
+	if run.book.stopped {
+		return v;
+	}
+	for c in 0..run.nconns {
+		if run.book.peer_closed[c] || run.env.closed(c) {
+			continue;
+		}
+		let free = run.book.cap.saturating_sub(run.book.holding(c));
+		for _ in 0..free + 1 {
+			v.push(format!("ss sub {c} 0 {}", g.rid()));
+		}
+	}
+	v
+}
+
+/// `ctx` = running hash of the case so far: the same op text in a different history is a different
+/// evaluation (distinctness of non-trivial lines is by history prefix + line, not by the line alone)
+pub fn record(out: &mut Out, ctx: &mut u64, line: String, r: LineResult) {
+	out.count(&r.kind);
+	if let Err(e) = &r.oracle {
+		out.count(if e.starts_with("KF ") { "oracle.known-finding" } else { "oracle.FAIL" });
+	}
+	*ctx = fxhash(format!("{ctx}|{line}|{}", r.out).as_bytes());
+	if r.nontrivial {
+		out.nontrivial.insert(*ctx);
+	}
+	out.line(line, r.out, r.oracle, false);
+}
+
+pub fn rt() -> tokio::runtime::Runtime {
+	tokio::runtime::Builder::new_current_thread().enable_all().start_paused(true).build().unwrap()
+}
+
+/// run a fixed list of lines (first = header)
+pub fn run_fixed(out: &mut Out, lines: &[String], pf: &Profile) {
+	if lines.is_empty() {
+		return;
+	}
+	let rt = rt();
+	rt.block_on(async {
+		let Some(mut run) = CaseRun::new(&lines[0], pf.check_c06, pf.check_c04).await else {
+			out.line(lines[0].clone(), "bad-op".into(), Ok(()), false);
+			return;
+		};
+		out.line(lines[0].clone(), "case".into(), Ok(()), false);
+		let mut ctx = fxhash(lines[0].split_whitespace().skip(2).collect::<Vec<_>>().join(" ").as_bytes());
+		for l in &lines[1..] {
+			let r = run.exec(l).await;
+			record(out, &mut ctx, l.clone(), r);
+		}
+	});
+}
+
+/// generate + run one case online; returns the lines (for fault-injection variants)
+pub fn run_generated(out: &mut Out, rng: &mut Rng, caseno: u64, eager: bool, nconns: usize, cap: u32, qcap: u32, nops: u64, pf: &Profile) -> Vec<String> {
+	let header = format!("case {caseno} subs mode={} cap={cap} qcap={qcap} conns={nconns}", if eager { "eager" } else { "manual" });
+	let mut lines = vec![header.clone()];
+	let rt = rt();
+	rt.block_on(async {
+		let mut run = CaseRun::new(&header, pf.check_c06, pf.check_c04).await.unwrap();
+		out.line(header.clone(), "case".into(), Ok(()), false);
+		let mut g = Gen { next_rid: 100, next_payload: 0, next_close: 0 };
+		let mut ctx = fxhash(header.split_whitespace().skip(2).collect::<Vec<_>>().join(" ").as_bytes());
+		for _ in 0..nops {
+			let l = gen_line(rng, &run, &mut g, pf);
+			let r = run.exec(&l).await;
+			record(out, &mut ctx, l.clone(), r);
+			lines.push(l);
+		}
+		let closing = if pf.tail { tail_lines(&run, &mut g) } else { drain_lines(&run) };
+		for l in closing {
+			let r = run.exec(&l).await;
+			record(out, &mut ctx, l.clone(), r);
+			lines.push(l);
+		}
+	});
+	out.count(&format!("cfg.cap{cap}.conns{nconns}.{}", if eager { "eager" } else { "manual" }));
+	lines
+}
+
+pub fn split_cases(lines: Vec<String>) -> Vec<Vec<String>> {
+	let mut cases: Vec<Vec<String>> = vec![];
+	for l in lines {
+		if l.starts_with("case ") || cases.is_empty() {
+			cases.push(vec![]);
+		}
+		cases.last_mut().unwrap().push(l);
+	}
+	cases
+}
+
+/// every script over a 9-op alphabet up to length `maxlen` (one connection, cap 1)
+pub fn exhaustive(out: &mut Out, maxlen: usize, caseno: &mut u64, pf: &Profile) {
+	let alphabet: [&str; 9] = [
+		"ss sub 0 0 RID",
+		"ss accept 0",
+		"ss reject 0 -1",
+		"ss send 0 PAY",
+		"ss clone 0",
+		"ss dropsink 0",
+		"ss unsub 0 0 1 RID",
+		"ss ret 0 err:CLOSE",
+		"ss connclose 0 abrupt",
+	];
+	let mut idx = vec![0usize; 0];
+	loop {
+		// next word in length-lexicographic order
+		let mut i = idx.len();
+		loop {
+			if i == 0 {
+				idx = vec![0; idx.len() + 1];
+				break;
+			}
+			i -= 1;
+			if idx[i] + 1 < alphabet.len() {
+				idx[i] += 1;
+				for j in i + 1..idx.len() {
+					idx[j] = 0;
+				}
+				break;
+			}
+		}
+		if idx.len() > maxlen {
+			break;
+		}
+		// prune: scripts that do not start with a subscribe exercise nothing
+		if idx[0] != 0 {
+			continue;
+		}
+		*caseno += 1;
+		let mut g = Gen { next_rid: 100, next_payload: 0, next_close: 0 };
+		let mut lines = vec![format!("case {caseno} subs mode=eager cap=1 qcap=1024 conns=1")];
+		for &a in &idx {
+			lines.push(fill(alphabet[a].to_string(), &mut g));
+		}
+		lines.push(fill("ss sub 0 0 RID".to_string(), &mut g));
+		run_fixed(out, &lines, pf);
+		out.count("exhaustive.scripts");
+	}
+}
+
